@@ -1131,10 +1131,81 @@ func genLifecycle() {
 			}
 			l.p("def storerEnding : List (Nat × Nat × Bool × Bool) := [%s]", strings.Join(lcSortRows(rows), ", "))
 		}
+		// the optional attributes of a re-created output (expiry extension, version
+		// upgrade): are they decided independently, or as alternatives of one
+		// switch / if-else chain (then a diff carrying both gets only one)?
+		expPath := lcBranchPath(fd.Body, "ExpiryModifier")
+		verPath := lcBranchPath(fd.Body, "VersionModifier")
+		if expPath == nil || verPath == nil {
+			fail("StorePendingBatch: ExpiryModifier / VersionModifier not found")
+		}
+		exclusive := false
+		for root, b1 := range expPath {
+			if b2, ok := verPath[root]; ok && b1 != b2 {
+				exclusive = true
+			}
+		}
+		l.p("def storerOptionalExclusive : Bool := %s", leanBool(exclusive))
 	} else {
 		fail("batchStorer.StorePendingBatch not found")
 	}
 	l.p("end Pool.Gen.Lifecycle")
+}
+
+// lcBranchPath locates the first call of the named function (also through
+// same-package helpers, one level) and returns, for every branching statement
+// around it (switch, if / else chain), which branch it sits in.
+func lcBranchPath(body ast.Node, name string) map[ast.Node]int {
+	var res map[ast.Node]int
+	var stack []ast.Node
+	ast.Inspect(body, func(n ast.Node) bool {
+		if n == nil {
+			stack = stack[:len(stack)-1]
+			return true
+		}
+		stack = append(stack, n)
+		c, ok := n.(*ast.CallExpr)
+		if !ok || res != nil {
+			return true
+		}
+		hit := callName(c) == name
+		if !hit {
+			if callee := lcCallee(c); callee != nil && callee.Body != nil {
+				ast.Inspect(callee.Body, func(m ast.Node) bool {
+					if cc, ok := m.(*ast.CallExpr); ok && callName(cc) == name {
+						hit = true
+					}
+					return true
+				})
+			}
+		}
+		if !hit {
+			return true
+		}
+		res = map[ast.Node]int{}
+		for i := 0; i+1 < len(stack); i++ {
+			switch x := stack[i].(type) {
+			case *ast.IfStmt:
+				switch stack[i+1] {
+				case ast.Node(x.Body):
+					res[x] = 1
+				case x.Else:
+					res[x] = 2
+				}
+			case *ast.SwitchStmt:
+				// stack: switch, its body block, the case clause
+				if i+2 < len(stack) {
+					for j, cl := range x.Body.List {
+						if ast.Node(cl) == stack[i+2] {
+							res[x] = j + 1
+						}
+					}
+				}
+			}
+		}
+		return true
+	})
+	return res
 }
 
 // sigLatestTx reports whether the block assigns latestTx.
